@@ -141,16 +141,26 @@ Definition ignore_all (fd : option directive) : bool :=
   | None => false
   end.
 
-(* lint_inner.  rule_diags: what the configured rules pushed, in execution order;
-   ext: None = no callback or the callback declined. *)
+(* what the external-linter callback produced *)
+Inductive ext_result :=
+| NoCallback                                   (* no callback was supplied *)
+| Declined                                     (* the callback returned None *)
+| ExtResult (ds : list diag) (codes : list str).
+
+Definition ext_diags (e : ext_result) : list diag :=
+  match e with ExtResult ds _ => ds | _ => [] end.
+Definition ext_codes (e : ext_result) : list str :=
+  match e with ExtResult _ cs => cs | _ => [] end.
+
+(* lint_inner.  rule_diags: what the configured rules pushed, in execution order. *)
 Definition lint_inner (o : options) (orc : oracle) (f : file) (rule_diags : list diag)
-  (ext : option (list diag * list str)) : list diag :=
+  (ext : ext_result) : list diag :=
   let fd := find_file_dir (file_word o) (f_leading f) in
   if ignore_all fd then []
   else
     match ext with
-    | None => collect o orc f fd rule_diags []
-    | Some (ed, ec) => collect o orc f fd (rule_diags ++ ed) ec
+    | ExtResult ed ec => collect o orc f fd (rule_diags ++ ed) ec
+    | _ => collect o orc f fd rule_diags []
     end.
 
 Definition id_oracle : oracle := mkOracle (fun l => l) (fun l => l).
